@@ -37,14 +37,22 @@ extern "C" void h_raycast() {
   m.vertNormal_.resize(3, vec3(0.0));
   for (int i = 0; i < 3; i++) {
     m.vertPos_[i] = D(T[i]);
+#ifdef VF_SYM_NORMALS
     m.vertNormal_[i] = vec3(vf_finite(8), vf_finite(8), vf_finite(8));
+#endif
   }
   m.faceNormal_.resize(4, vec3(0.0));
+#ifdef VF_SYM_NORMALS  // normals only break exact ties; the default keeps them zero
   for (int i = 0; i < 4; i++) m.faceNormal_[i] = vec3(vf_finite(8), vf_finite(8), vf_finite(8));
+#endif
   m.halfedge_.resize(12);
+#ifdef VF_SYM_NUMBERING
   int v0 = vf_range(0, 2), v1 = vf_range(0, 2), v2 = vf_range(0, 2);
   vf_assume(v0 != v1 && v1 != v2 && v0 != v2);
   const int tv[3] = {v0, v1, v2};
+#else  // the vertex POSITIONS are symbolic, so one numbering already covers both orientations
+  const int tv[3] = {0, 1, 2};
+#endif
   for (int i = 0; i < 3; i++) {
     m.halfedge_.Set(i, tv[i], 3 * (i + 1), tv[i]);
     m.halfedge_.Set(3 * (i + 1), tv[(i + 1) % 3], i, tv[(i + 1) % 3]);
